@@ -103,15 +103,21 @@ def callVal (c : Call) : Val := .list [streamVal c.stream, .int c.idx, .str (kin
 
 /-- `C16.run sharedSeed globalChoice entry seed world`
     → cells, calls, alloc reads, err, seed object afterwards, global generator afterwards -/
-def run : Op
-  | [.bool sh, .bool gc, ev, sv, wv] => do
+def runWith (v : Variant) (ev sv wv : Val) : Option (List Val) := do
     let e ← parseEntry ev
     let sd ← parseSeed sv
     let w ← parseWorld wv
-    let r := e.run ⟨sh, gc⟩ sd w
+    let r := e.run v sd w
     some [.list (r.1.1.cells.map cellVal), .list (r.1.1.calls.map callVal),
           .list (r.1.1.alloc.map readVal), .bool r.1.1.err, seedVal r.1.2,
           .list [streamVal r.2.glob.stream, .int r.2.glob.ctr, .int r.2.freshU]]
+
+/-- optional third variant argument: the integer `PriorPredictiveModel` drew from a `Generator` seed
+    (repaired behaviour), `n` for the code as it is -/
+def run : Op
+  | [.bool sh, .bool gc, ev, sv, wv] => runWith ⟨sh, gc, none⟩ ev sv wv
+  | [.bool sh, .bool gc, .none, ev, sv, wv] => runWith ⟨sh, gc, none⟩ ev sv wv
+  | [.bool sh, .bool gc, .int pg, ev, sv, wv] => runWith ⟨sh, gc, some pg⟩ ev sv wv
   | _ => none
 
 def ops : List (String × Op) := [("C16.run", run)]
